@@ -36,6 +36,7 @@ Terms are nested tuples (hashable):
 from __future__ import annotations
 
 import ast
+import re
 import itertools
 from dataclasses import dataclass, field
 
@@ -248,6 +249,14 @@ class Evaluator:
             env[a.kwarg.arg] = P(a.kwarg.arg)
         if bind:
             env.update(bind)
+        # parameters whose annotation names a class (no None / Optional / Any / bare union with None): the package's annotations are enforced at run time
+        # (beartype), so such a parameter is never None - `p is None` is decided for it
+        self.nonnull_params = set()
+        for x in a.posonlyargs + a.args + a.kwonlyargs:
+            if x.annotation is not None and x.arg not in (bind or {}):
+                an = ast.unparse(x.annotation)
+                if not re.search(r"\bNone\b|\bOptional\b|\bAny\b|\bobject\b", an) and re.fullmatch(r"[A-Za-z_][\w\.]*(\[[\w\s\.,\[\]\|]*\])?", an):
+                    self.nonnull_params.add(x.arg)
         ctx = _Ctx(self, module, cls, 0)
         return ctx.run_body(fn.body if not isinstance(fn, ast.Lambda) else [ast.Return(value=fn.body)], env)
 
@@ -1033,6 +1042,37 @@ class _Ctx:
             env[st.name] = self.make_closure(st, env, st.name)
             return env
         if isinstance(st, ast.If):
+            # the optional-result idiom: `x = first_stage(..)` ... `if x is not None: A else: B` with x a decision tree whose leaves are None or certainly
+            # not None.  It is the decision tree itself: A runs at the value leaves (x bound to that value), B at the None leaves - as if the stage's
+            # tests had been written here
+            tt = st.test
+            if (isinstance(tt, ast.Compare) and len(tt.ops) == 1 and isinstance(tt.ops[0], (ast.Is, ast.IsNot)) and isinstance(tt.left, ast.Name)
+                    and isinstance(tt.comparators[0], ast.Constant) and tt.comparators[0].value is None and is_t(env.get(tt.left.id), "phi")):
+                nm_ = tt.left.id
+                nn_ = lambda x: (is_t(x, "attr") and x[1] == P("self") and self.cls is not None and ev.prog.find_method(self.cls, x[2]) is not None) \
+                    or (is_t(x, "param") and x[1] in getattr(ev, "nonnull_params", ()))
+
+                def _leaves(v_):
+                    return _leaves(v_[2]) + _leaves(v_[3]) if is_t(v_, "phi") else [v_]
+                if all(mk_is(l_, C(None), nn_) in (C(True), C(False)) for l_ in _leaves(env[nm_])):
+                    b_none, b_val = (st.body, st.orelse) if isinstance(tt.ops[0], ast.Is) else (st.orelse, st.body)
+                    cont_ = []
+
+                    def _walk(v_, env_, conds_):
+                        if is_t(v_, "phi"):
+                            e1_ = _walk(v_[2], dict(env_), conds_ + ((v_[1], True),))
+                            e2_ = _walk(v_[3], dict(env_), conds_ + ((v_[1], False),))
+                            self.py_tests.add(canon_test(v_[1]))
+                            return _join(v_[1], e1_, e2_)
+                        env_[nm_] = v_
+                        b_ = b_none if mk_is(v_, C(None), nn_) == C(True) else b_val
+                        r_ = self.block(b_, env_, conds_) if b_ else env_
+                        if r_ is not None:
+                            cont_.append(conds_)
+                        return r_
+                    out_ = _walk(env[nm_], dict(env), conds)
+                    self._extra = tuple(c_ for c_ in cont_[0][len(conds):]) if len(cont_) == 1 else ()
+                    return out_
             test = self.expr(st.test, env)
             body, orelse = st.body, st.orelse
             while (is_t(test, "un") and test[1] == "not") or (is_t(test, "cmp") and test[1] == "!="):
@@ -1293,7 +1333,8 @@ class _Ctx:
                 name = _CMP.get(type(op), "?")
                 if name in ("is", "is not"):
                     # (self.<method> is a bound method: never None)
-                    t = mk_is(left, right, lambda x: is_t(x, "attr") and x[1] == P("self") and self.cls is not None and ev.prog.find_method(self.cls, x[2]) is not None)
+                    t = mk_is(left, right, lambda x: (is_t(x, "attr") and x[1] == P("self") and self.cls is not None and ev.prog.find_method(self.cls, x[2]) is not None)
+                              or (is_t(x, "param") and x[1] in getattr(ev, "nonnull_params", ())))
                     if name == "is not":
                         t = ("un", "not", t)
                 else:
@@ -1727,6 +1768,11 @@ class _Ctx:
             # jax.util.split_list(xs, [n]) is (xs[:n], xs[n:])
             n_ = args[1][1][0]
             return mk_tuple((("index", args[0], ("sliceobj", C(None), n_, C(None))), ("index", args[0], ("sliceobj", n_, C(None), C(None)))))
+        # itertools.starmap(f, xs) is (f(*x) for x in xs)
+        if name == "itertools.starmap" and len(args) == 2 and not kwargs:
+            it_ = _iterable(args[1])
+            el_ = mk_elem(it_)
+            return mk_fam(it_, self.call_value(args[0], list(el_[1]) if is_t(el_, "tuple") and not _has_star(el_) else [("star", el_)], {}))
         if name in ("functools.reduce", "reduce") and len(args) == 3 and not kwargs:
             # functools.reduce(f, xs, init) is the loop `acc = init; for x in xs: acc = f(acc, x)`
             it_ = _iterable(args[1])
@@ -1804,6 +1850,10 @@ class _Ctx:
                 if r is not None:
                     return r
         # method of a NamedTuple built here
+        if is_t(obj, "tuple") and obj in _NT_CLASS and name == "_replace" and not args and "**" not in kwargs and set(kwargs) <= set(_NT_CLASS[obj][1]) and not _has_star(obj):
+            t_ = mk_tuple(kwargs.get(f_, obj[1][i_]) for i_, f_ in enumerate(_NT_CLASS[obj][1]))
+            _NT_CLASS[t_] = _NT_CLASS[obj]
+            return t_
         if is_t(obj, "tuple") and obj in _NT_CLASS:
             cis = ev.prog.class_index.get(_NT_CLASS[obj][0])
             if cis and name in cis[0].methods:
@@ -1911,6 +1961,8 @@ class _Ctx:
         if is_t(init, "tuple") and not _has_star(init):
             n = len(init[1])
             carry_in = mk_tuple(("scanc", sid, i) for i in range(n))
+            if init in _NT_CLASS:
+                _NT_CLASS[carry_in] = _NT_CLASS[init]  # the carry of a scan started from a NamedTuple is a value of that class
         else:
             n = None
             carry_in = ("scanc", sid, None)
